@@ -368,9 +368,7 @@ def _default_ok_py(A, B, tpl, inv):
                 if not nb or any(isH(g, x) for x in nb):
                     return 0
     for h in A.nodes:
-        if isH(A, h):
-            if h not in tpl:
-                return 0
+        if isH(A, h) and h in tpl:        # a hydrogen atom of the template is there with all its bonds (the others are spectators)
             for g in (A, B):
                 for u, v in g.edges():
                     if h in (u, v) and not tpl.has_edge(u, v):
